@@ -185,6 +185,12 @@ func init() {
 				"cache-store-not-url":           func(p *config.PikeConfig) { p.Caches[0].Store = "not a url" },
 				"upstream-addr-scheme":          func(p *config.PikeConfig) { p.Upstreams[0].Servers[0].Addr = "ftp://127.0.0.1:1" },
 				"upstream-addr-empty":           func(p *config.PikeConfig) { p.Upstreams[0].Servers[0].Addr = "" },
+				"upstream-addr-trailing-blank":  func(p *config.PikeConfig) { p.Upstreams[0].Servers[0].Addr = "http://127.0.0.1:3000 " },
+				"upstream-addr-open-bracket":    func(p *config.PikeConfig) { p.Upstreams[0].Servers[0].Addr = "http://[::1" },
+				"upstream-addr-bad-port":        func(p *config.PikeConfig) { p.Upstreams[0].Servers[0].Addr = "http://127.0.0.1:80a" },
+				"upstream-addr-bad-escape":      func(p *config.PikeConfig) { p.Upstreams[0].Servers[0].Addr = "https://%zz" },
+				"upstream-addr-no-scheme":       func(p *config.PikeConfig) { p.Upstreams[0].Servers[0].Addr = "127.0.0.1:3000" },
+				"upstream-addr-control-char":    func(p *config.PikeConfig) { p.Upstreams[0].Servers[0].Addr = "http://127.0.0.1:3000/\x7f" },
 				"upstream-servers-missing":      func(p *config.PikeConfig) { p.Upstreams[0].Servers = nil },
 				"upstream-policy-unknown":       func(p *config.PikeConfig) { p.Upstreams[0].Policy = "fastest" },
 				"upstream-healthcheck-no-slash": func(p *config.PikeConfig) { p.Upstreams[0].HealthCheck = "ping" },
